@@ -318,22 +318,7 @@ func checkC02(c *Ctx) {
 	}
 
 	// R02.8 ---------------------------------------------------------------
-	c.Rule("R02.8", "no exemption beyond the documented ones keeps an identifier", 12)
-	exits, err := objectNameExits(w)
-	if err != nil {
-		c.Undecided("R02.8", "obfuscatedObjectName", "", err.Error())
-	}
-	seen := map[string]int{}
-	for _, e := range exits {
-		seen[e.Class]++
-		key := fmt.Sprintf("obfuscatedObjectName exit: %s #%d", e.Class, seen[e.Class])
-		if strings.HasPrefix(e.Class, "OTHER") {
-			key = fmt.Sprintf("obfuscatedObjectName undocumented exit #%d", seen[e.Class])
-			c.Bad("R02.8", key, w.Pos(e.Ret.Pos()), "obfuscatedObjectName keeps a name for a reason that is not one of the documented exceptions ("+strings.TrimPrefix(e.Class, "OTHER: ")+"): those identifiers appear in the binary")
-		} else {
-			c.OK("R02.8", key, w.Pos(e.Ret.Pos()), "documented exception")
-		}
-	}
+	ruleNoNewNameExemption(c)
 	checkIdentVisitorExits(c, "R02.8")
 }
 
